@@ -169,30 +169,30 @@ Qed.
     [Int!]!; a document with a merged field, a named fragment, a fragment on an abstract type, an
     alias and @skip; a resolver error under a non-null field and a null list item): the plan,
     the data every schedule yields, and C01's data. *)
-From ApiFu Require Exe.ExecData Exe.ExecSpec Exe.ExecModel Exe.ExecHyps Examples.C01.
+From ApiFu Require ExeA.ArgData ExeA.ArgSpec ExeA.ArgModel ExeA.ArgHyps Examples.C01.
 From ApiFu Require Import Fut.BridgeC01 Fut.BridgeProofs Fut.BridgeCompose.
 From Coq Require Import String.
 Open Scope string_scope.
 
-Definition ex_code (j : ExecData.json) : Z :=
+Definition ex_code (j : ArgData.json) : Z :=
   match j with
-  | ExecData.JInt z => z
-  | ExecData.JStr s => 1000 + Z.of_nat (List.length s)
+  | ArgData.JInt z => z
+  | ArgData.JStr s => 1000 + Z.of_nat (List.length s)
   | _ => 7
   end.
 
-Definition bridged : selset := plan_of ex_code C01.ex_schema C01.ex_doc C01.ex_env C01.ex_fuel C01.ex_W.
+Definition bridged : selset := plan_of ex_code C01.A.ex_schema C01.A.ex_doc C01.A.ex_env C01.A.ex_fuel C01.A.ex_W.
 
 (** the same request with the resolvers of o and of i answering through promises *)
 Definition bridged_async : selset :=
   map (fun kf => match kf with
                  | (k, FP _ nn res) =>
-                     if bytes_eqb k (C01.nm "o") then (k, FP (Some 0) nn res)
-                     else if bytes_eqb k (C01.nm "i") then (k, FP (Some 1) nn res)
+                     if bytes_eqb k (C01.A.nm "o") then (k, FP (Some 0) nn res)
+                     else if bytes_eqb k (C01.A.nm "i") then (k, FP (Some 1) nn res)
                      else kf
                  end) bridged.
 
-Example bridged_keys : map fst bridged = [C01.nm "o"; C01.nm "l"; C01.nm "ln"; C01.nm "i"; C01.nm "u"].
+Example bridged_keys : map fst bridged = [C01.A.nm "o"; C01.A.nm "l"; C01.A.nm "ln"; C01.A.nm "i"; C01.A.nm "u"].
 Proof. vm_compute. reflexivity. Qed.
 Example bridged_same : same_outcomes bridged_async bridged.
 Proof. vm_compute. reflexivity. Qed.
@@ -201,17 +201,17 @@ Proof. vm_compute. reflexivity. Qed.
 
 Example bridge_here :
   exists r, run fixed_flags (sigma_ranks [1; 0]%nat) Query 2 6 bridged_async = Done r /\
-    r_data r = tr_data ex_code (Some (ExecData.JObj
-                 [ (C01.nm "o", ExecData.JNull); (C01.nm "l", ExecData.JNull);
-                   (C01.nm "ln", ExecData.JArr [ExecData.JInt 1; ExecData.JInt 2]);
-                   (C01.nm "i", ExecData.JObj [(C01.nm "s", ExecData.JStr (C01.nm "y")); (C01.nm "x", ExecData.JInt 3)]);
-                   (C01.nm "u", ExecData.JObj [(ExecData.n_typename, ExecData.JStr (C01.nm "P"))]) ])) /\
+    r_data r = tr_data ex_code (Some (ArgData.JObj
+                 [ (C01.A.nm "o", ArgData.JNull); (C01.A.nm "l", ArgData.JNull);
+                   (C01.A.nm "ln", ArgData.JArr [ArgData.JInt 1; ArgData.JInt 2]);
+                   (C01.A.nm "i", ArgData.JObj [(C01.A.nm "s", ArgData.JStr (C01.A.nm "y")); (C01.A.nm "x", ArgData.JInt 3)]);
+                   (C01.A.nm "u", ArgData.JObj [(ArgData.n_typename, ArgData.JStr (C01.A.nm "P"))]) ])) /\
     r_rounds r = 2%nat /\ List.length (r_errors r) = 2%nat.
 Proof.
-  destruct (schedule_yields_reference_data ex_code C01.ex_schema C01.ex_doc C01.ex_env C01.ex_fuel C01.ex_fuel
-              C01.ex_W _ _ Query bridged_async (sigma_ranks [1; 0]%nat) 2 6
-              (proj1 (proj2 C01.hypotheses_hold)) (proj2 (proj2 C01.hypotheses_hold)) (proj1 C01.hypotheses_hold)
-              C01.response bridged_same (sigma_ranks_fair _)) as (r & E & D1 & _ & _).
+  destruct (schedule_yields_reference_data ex_code C01.A.ex_schema C01.A.ex_doc C01.A.ex_env C01.A.ex_fuel C01.A.ex_fuel
+              C01.A.ex_W _ _ Query bridged_async (sigma_ranks [1; 0]%nat) 2 6
+              (proj1 (proj2 C01.A.hypotheses_hold)) (proj2 (proj2 C01.A.hypotheses_hold)) (proj1 C01.A.hypotheses_hold)
+              C01.A.response bridged_same (sigma_ranks_fair _)) as (r & E & D1 & _ & _).
   - vm_compute. repeat constructor.
   - vm_compute. repeat constructor.
   - exists r. split; auto. split; auto.
@@ -222,18 +222,18 @@ Qed.
 (** the two failure-nulls of C01's reference (o and l) are the plan's visible nulls *)
 From ApiFu Require Import Fut.BridgeNulls.
 Example bridge_nulls_here :
-  null_paths (ExecSpec.failure_nulls (ExecSpec.exec_spec C01.ex_schema C01.ex_doc C01.ex_env C01.ex_fuel C01.ex_W)) =
-  [[PKey (C01.nm "o")]; [PKey (C01.nm "l")]] /\
-  site_paths (visible_nulls bridged_async) = [[PKey (C01.nm "o")]; [PKey (C01.nm "l")]].
+  null_paths (ArgSpec.failure_nulls (ArgSpec.exec_spec C01.A.ex_schema C01.A.ex_doc C01.A.ex_env C01.A.ex_fuel C01.A.ex_W)) =
+  [[PKey (C01.A.nm "o")]; [PKey (C01.A.nm "l")]] /\
+  site_paths (visible_nulls bridged_async) = [[PKey (C01.A.nm "o")]; [PKey (C01.A.nm "l")]].
 Proof. vm_compute. split; reflexivity. Qed.
 
 (** … with their candidates: o is explained by the error at o.n, l by the error at l.1 *)
 From ApiFu Require Import Fut.BridgeCands.
 Example bridge_candidates_here :
-  null_sites (ExecSpec.failure_nulls (ExecSpec.exec_spec C01.ex_schema C01.ex_doc C01.ex_env C01.ex_fuel C01.ex_W)) =
-  [ ([PKey (C01.nm "o")], [[PKey (C01.nm "o"); PKey (C01.nm "n")]]);
-    ([PKey (C01.nm "l")], [[PKey (C01.nm "l"); PIdx 1]]) ] /\
+  null_sites (ArgSpec.failure_nulls (ArgSpec.exec_spec C01.A.ex_schema C01.A.ex_doc C01.A.ex_env C01.A.ex_fuel C01.A.ex_W)) =
+  [ ([PKey (C01.A.nm "o")], [[PKey (C01.A.nm "o"); PKey (C01.A.nm "n")]]);
+    ([PKey (C01.A.nm "l")], [[PKey (C01.A.nm "l"); PIdx 1]]) ] /\
   plan_sites (visible_nulls bridged_async) =
-  [ ([PKey (C01.nm "o")], [[PKey (C01.nm "o"); PKey (C01.nm "n")]]);
-    ([PKey (C01.nm "l")], [[PKey (C01.nm "l"); PIdx 1]]) ].
+  [ ([PKey (C01.A.nm "o")], [[PKey (C01.A.nm "o"); PKey (C01.A.nm "n")]]);
+    ([PKey (C01.A.nm "l")], [[PKey (C01.A.nm "l"); PIdx 1]]) ].
 Proof. vm_compute. split; reflexivity. Qed.
